@@ -28,7 +28,7 @@ def _oracle_enc(fr, outn, outc):
         return 'serialize raised %s on an in-range frame value' % (outc[1],)
     _, ser, pre, tcp, parsed, reser = outc
     if parsed[0] != 'ok':
-        return 'decoding the encoding gives %s' % (parsed[0],)
+        return 'decoding the encoding gives %s' % (parsed[:2],)
     if parsed[1] != FR.norm(fr):
         diff = [k for k in fr if parsed[1].get(k) != FR.norm(fr).get(k)]
         return 'decode(encode f) differs from f in fields %s' % diff
@@ -132,6 +132,10 @@ def _cases(ctx, corr):
         corr.nontriv(('dec', b))
         rn = (on[0], on[1]) if on[0] == 'ok' else (on[0],)
         rc = (oc[0], oc[1]) if oc[0] == 'ok' else (oc[0],)
+        if 'broken' in (on[0], oc[0]):
+            corr.oracle_failures.append({'what': 'parse_or_ignore returned a frame object whose fields were never decoded '
+                                                 '(%s)' % (oc[1:],), 'kind': 'dec', 'buf': b.hex()})
+            continue
         if kind not in ('reserved-bit',) and rn != rc and not (len(b) >= 6 and b[0] & 0x80):
             # backend independence on arbitrary bytes is only required with the reserved bit clear; RESUME frames with
             # trailing bytes differ too (struct needs exactly 8 bytes for the last position) -- both are modelled
@@ -186,6 +190,14 @@ def _unhex(fr):
 def replay(obj):
     import ast
     case = obj['case']
+    if case.get('kind') == 'dec':
+        b = bytes.fromhex(case['buf'])
+        rn = FR.run_batch_backend([('dec', b)], native=True)[0]
+        rc = FR.run_batch_backend([('dec', b)], native=False)[0]
+        bad = 'broken' in (rn[0], rc[0])
+        if bad:
+            print('oracle: parse_or_ignore returned a half-decoded frame', rn, rc)
+        return bad
     fr = case['frame']
     # JSON turned bytes into repr strings
     for k, v in list(fr.items()):
